@@ -42,6 +42,7 @@ SaveLoadClauses(r) ==
           <<"notes-identical", Len(r.loaded) = n => \A i \in 1 .. n :
                  {NoteCore(x) : x \in Notes(le(i))} = {NoteCore(x) : x \in Notes(RelEvents(r.saved[i]))}>>,
           <<"loaded-well-formed", \A i \in DOMAIN r.loaded : Alternates(le(i))>>,
+          <<"loaded-views-agree", \A i \in DOMAIN r.loaded : SameContent(r.loaded[i], r.loadedRel[i])>>,
           <<"time-signature-in-force", Len(r.loaded) >= 1 => \A t \in ticks :
                  InForce(le(tg), "ts", t, <<4, 4>>) = InForceAll(r.saved, "ts", t, <<4, 4>>)>>,
           <<"key-signature-in-force", Len(r.loaded) >= 1 => \A t \in ticks :
@@ -96,6 +97,7 @@ LoadClauses(r) ==
           <<"sounding-is-union-of-group", ~HasTie(r) => \A g \in 1 .. ng :
                  Sounding(le(g), AbsDur(r.loaded[g])) = GroupSound(r, g)>>,
           <<"loaded-well-formed", \A g \in 1 .. ng : Alternates(le(g))>>,
+          <<"loaded-views-agree", \A g \in DOMAIN r.loaded : SameContent(r.loaded[g], r.loadedRel[g])>>,
           <<"time-signature-in-force", (~HasTie(r) /\ FileSigsSeparable(r, "ts")) => \A t \in sigTicks :
                  InForce(le(tgt), "ts", t, <<4, 4>>) = FileInForce(r, "ts", t, <<4, 4>>)>>,
           <<"key-signature-in-force", (~HasTie(r) /\ FileSigsSeparable(r, "ks")) => \A t \in sigTicks :
